@@ -223,6 +223,38 @@ func checkC11(c *Ctx) {
 					exitRegion[in.Block()] = true
 				})
 				nCall := 0
+				// when the insert sits in a registering helper, the handler that calls the helper is held to the same
+				// ordering: its sends to the session come after that call
+				for _, e := range ir.Callers(c.G, fn) {
+					caller := e.Caller.Func
+					site, ok := e.Site.(*ssa.Call)
+					if !ok || !c.P.IsLib(caller) || caller == fn || len(exitRegion) > 0 {
+						continue // (a function that also waits for the stream's end is the handler itself)
+					}
+					ir.EachInstr(caller, func(_ *ssa.BasicBlock, _ int, in ssa.Instruction) {
+						call, ok := in.(*ssa.Call)
+						if !ok || call == site {
+							return
+						}
+						sends := false
+						for _, cal := range ir.Callees(c.G, call) {
+							if !c.P.IsLib(cal) || cal == fn {
+								continue
+							}
+							for f := range c.ReachSync(cal) {
+								if tableReaders[f] {
+									sends = true
+								}
+							}
+						}
+						if sends && (flow.Reaches(in, site) || flow.Reaches(site, in)) {
+							nCall++
+							c.R.Check(flow.Dominates(site, in), "R-register-first", sprintf("send to the session #%d in %s", nCall, fname(caller)), c.Pos(call.Pos()),
+								"made after this stream's own record is in the table",
+								sprintf("%s sends to the session (through a function that looks the session's stream up in %s) before it has registered its own record through %s: the message goes to the stream being replaced", fname(caller), table, fname(fn)))
+						}
+					})
+				}
 				ir.EachInstr(fn, func(_ *ssa.BasicBlock, _ int, in ssa.Instruction) {
 					call, ok := in.(*ssa.Call)
 					if !ok {
